@@ -494,7 +494,16 @@ fn msr_case(c: &MsrCase, obs: &mut Obs) -> CaseResult {
             set_prior(reg, prior);
             cpu().clear_log();
             // step 7: a valid quadruple built from (f, g); step 8: arbitrary (mostly invalid)
-            let (cs_sr, ss_sr, cs_sc, ss_sc) = if step % 16 == 7 {
+            let (cs_sr, ss_sr, cs_sc, ss_sc) = if step % 16 == 8 && idx & 3 == 0 {
+                // selectors that satisfy the +8/+16 offsets only modulo 2^16 (must be rejected)
+                let a = sels.0 % 24;
+                let c = 0xfff0 | (sels.1 & 0xf);
+                match idx & 12 {
+                    0 => (a, a.wrapping_sub(8), sels.2 & 0xfff8, (sels.2 & 0xfff8).wrapping_add(8)),
+                    4 => (sels.2 | 3, (sels.2 | 3).wrapping_sub(8), c, c.wrapping_add(8)),
+                    _ => (a, a.wrapping_sub(8), c, c.wrapping_add(8)),
+                }
+            } else if step % 16 == 7 {
                 let f = (sels.0 | 3) & 0xffef; // RPL 3, room for +16
                 let f = if f < 3 { 3 } else { f };
                 let g = sels.1 & 0xfff0 & !3;
